@@ -343,3 +343,64 @@ Section Agree.
       + apply B3; auto. apply (r_stored_sound _ _ _ _ R). auto.
   Qed.
 End Agree.
+
+(* ---------- refinement only looks at which objects are in the list ---------- *)
+Lemma versions_nil_iff : forall id L, versions id L = [] <-> forall o, In o L -> oid o <> id.
+Proof.
+  intros id L. split.
+  - intros H o Ho E. assert (In o (versions id L)) as X by (apply versions_In; auto). rewrite H in X. contradiction.
+  - intros H. destruct (versions id L) as [|o l] eqn:E; auto.
+    assert (In o (versions id L)) as X by (rewrite E; simpl; auto). apply versions_In in X. destruct X as [X1 X2].
+    exfalso. exact (H o X1 X2).
+Qed.
+
+Lemma refines_ext : forall L L' g a st, (forall o, In o L <-> In o L') -> refines L g a st -> refines L' g a st.
+Proof.
+  intros L L' g a st E R. constructor.
+  - intros id H. apply versions_nil_iff. intros o Ho. apply E in Ho.
+    pose proof (r_get_none _ _ _ _ R _ H) as X. rewrite versions_nil_iff in X. auto.
+  - intros id o H. destruct (r_get_some _ _ _ _ R _ _ H) as [A [B C]]. split; [apply E; auto|]. split; auto.
+    intros o' Ho'. apply C. apply E. auto.
+  - intros id o H. destruct (r_all_sound _ _ _ _ R _ _ H). split; auto. apply E. auto.
+  - intros id o H1 H2. apply (r_all_complete _ _ _ _ R); auto. apply E. auto.
+  - apply (r_all_distinct _ _ _ _ R).
+  - intros o H. apply E. apply (r_stored_sound _ _ _ _ R). auto.
+  - intros o H. apply (r_stored_complete _ _ _ _ R). apply E. auto.
+  - apply (r_stored_distinct _ _ _ _ R).
+Qed.
+
+Section SaveLoadExact.
+  Variable mode : text_mode.
+  Variable iot : ustring -> option Z.
+  Notation nrm := (norm_obj mode iot).
+  Notation run := (mem_run mode iot).
+
+  (* when no (id, modified) was added twice, the reloaded store answers every lookup with the SAME object, holds
+     the same versions and the same population *)
+  Theorem save_load_exact_thm : forall L, let NL := map nrm L in
+    Forall clean NL -> uniform NL -> NoDup (map vkey_of NL) ->
+    exists m2, mem_load_saved mode iot (run L) [] = (m2, None) /\
+      (forall id, mem_get [] id m2 = mem_get [] id (run L)) /\
+      (forall id, Permutation (mem_all [] id m2) (mem_all [] id (run L))) /\
+      Permutation (mem_objs m2) (mem_objs (run L)).
+  Proof.
+    intros L NL F U ND. destruct (mem_refines_thm mode iot L F U) as [_ [R _]].
+    set (S := mem_objs (run L)) in *.
+    assert (forall o, In o S <-> In o NL) as ES.
+    { intros o. split; intros H.
+      - apply (r_stored_sound _ _ _ _ R). auto.
+      - destruct (r_stored_complete _ _ _ _ R _ H) as [o' [H1 H2]].
+        pose proof (r_stored_sound _ _ _ _ R _ H1) as H3.
+        assert (o' = o); [|subst; auto]. apply (vkey_inj_in NL); auto. }
+    assert (Forall clean S) as Fs.
+    { apply Forall_forall. intros o Ho. apply ES in Ho. rewrite Forall_forall in F. auto. }
+    assert (uniform S) as Us.
+    { intros a b Ha Hb. apply U; apply ES; auto. }
+    unfold mem_load_saved. fold S. rewrite (aware_map_clean _ Fs).
+    destruct (add_items_goods mode iot S [] [] MemInv_nil Fs Us) as [E I2]. simpl in I2.
+    exists (fold_left (madd mode iot) S []). split; auto.
+    pose proof (mem_refines_inv iot _ _ I2) as R2.
+    apply (refines_ext _ NL _ _ _ ES) in R2.
+    destruct (refines_unique _ _ _ _ _ _ _ ND R2 R) as [A1 [A2 A3]]. auto.
+  Qed.
+End SaveLoadExact.
